@@ -236,6 +236,9 @@ def run(ctx):
                                                "scenario": si, "block": lb.serialize().hex()})
             greeted = rng.random() < 0.7
             outgoing = rng.random() < 0.3
+            special = (k % 7 == 3)
+            if special:
+                greeted = True
             c = rn.add_peer(active=greeted, outgoing=outgoing)
             ops.append("node peer %d %d" % (1 if greeted else 0, 1 if outgoing else 0))
             impl.append("ok")
@@ -260,6 +263,20 @@ def run(ctx):
                 kind, data = "uncorrupted", b"".join(f for _, f in frames)
             else:
                 kind, data = corrupt(rng, frames)
+            reads = [data]
+            if special:
+                # broken framing with a particular segmentation: a stray frame header (the 4 magic bytes, or magic and a length)
+                # arrives in a read of its own; the next read holds exactly one whole well-formed frame — a valid new block that
+                # would be adopted and relayed if it were taken for a frame of its own. The bytes taken together are not a
+                # sequence of frames: refused, nothing changes
+                head_ = rn.cm.coinstate.current_chain_hash
+                hb_ = rn.cm.coinstate.block_by_hash[head_]
+                vb = chain.mine(rn.cm.coinstate, head_, [], keys.pk(0), hb_.timestamp + 7)
+                node.CLOCK[0] = max(node.CLOCK[0], vb.timestamp + 5)
+                vf = fr(DataMessage(DATA_BLOCK, vb), rng)
+                stray = MAGIC if (k // 7) % 2 == 0 else MAGIC + struct.pack(b">I", len(vf))
+                kind, data, reads = "stray_frame_header_in_a_read_of_its_own", stray + vf, [stray, vf]
+                frames = [("stray_header", stray), ("data_valid_block_after_stray_header", vf)]
             ops.extend(keys.oracle_lines(sig_mark))
             impl.extend(["ok"] * (len(keys.oracle) - sig_mark))
             sig_mark = len(keys.oracle)
@@ -269,7 +286,8 @@ def run(ctx):
             before_good = (rn.peers[good].hello_received, rn.outbox_kinds(rn.peers[good]),
                            any(q is rn.peers[good] for q in rn.lp.network_manager.connected_peers.values()))
             try:
-                r = rn.deliver_bytes(c, data)
+                for part in reads:
+                    r = rn.deliver_bytes(c, part)
                 escaped = None
             except BaseException as e:       # nothing may escape the event handler
                 r = "escaped"
